@@ -39,7 +39,7 @@ man = {
     ],
     "checks": checks,
     "not_applicable": na,
-    "notes": "Fix commits in /repo are listed in known_findings.json (fixed:) and DESIGN.md §8. exit 2 from a check = undecided (lost anchor / verifier resource-out / vacuity guard), never an alarm.",
+    "notes": "Fix commits in /repo are listed in known_findings.json (fixed:) and DESIGN.md §8. exit 2 from a check = undecided (lost anchor / verifier resource-out / vacuity guard), never an alarm. When a unit is undecided the quick tier also runs the replay scenarios mapped to it (tests against the real crate): a failing one is reported as VIOLATION ... obligation=replay/<scenario> with its input, otherwise the exit code stays 2; the thorough tier always runs the scenarios of the property. Scenarios are never counted as obligations discharged.",
 }
 json.dump(man, open(os.path.join(ROOT, "MANIFEST.json"), "w"), indent=1)
 print("claimed:", [c["property_id"] for c in checks]); print("not_applicable:", [n["property_id"] for n in na])
